@@ -10,6 +10,7 @@ package main
 
 import (
 	"fmt"
+	"go/ast"
 	"go/types"
 	"os"
 	"regexp"
@@ -149,7 +150,14 @@ func (sc *Scope) applyAbsPred(key, name string, v Val) Val {
 
 // ---------- spec rec ----------
 
+type recFrame struct {
+	key    string
+	slices []int // parameter indices of the slice parameters whose element memory is this key
+}
+
 type recDef struct {
+	frames    []recFrame
+	nIdx      int
 	name      string
 	keys      []string
 	epoch     bool
@@ -202,7 +210,65 @@ func (sc *Scope) applyRec(sf *SpecFn, args []Val) Val {
 			terms = append(terms, e.epochOf(&sc.st))
 		}
 	}
+	if !rd.compiling && e.noDefine == 0 && sc.bound == 0 && len(rd.frames) > 0 {
+		e.recFrameInstances(rd, args, terms, &sc.st)
+	}
 	return Val{T: retT, L: []string{app(rd.name, terms...)}}
+}
+
+// recFrameInstances: ground instances of the frame axiom where they are needed. If the current version of an element memory
+// the function reads is  store(M, r, store(select(M, r), x, v))  then, for N in {n, n-1}, f(.., N, .., M') == f(.., N, .., M)
+// whenever x lies outside s[0..N-1] of the slice parameters over that memory (same argument as the axiom; E-matching does
+// not find these instances because the n-1 term only appears after unfolding the recursive definition).
+func (e *Enc) recFrameInstances(rd *recDef, args []Val, terms []string, st *State) {
+	nLeaf := 0
+	leafStart := make([]int, len(args))
+	for i, a := range args {
+		leafStart[i] = nLeaf
+		nLeaf += len(a.L)
+	}
+	for _, fr := range rd.frames {
+		// position of this key among the heap arguments
+		kpos := -1
+		for j, k := range rd.keys {
+			if k == fr.key {
+				kpos = nLeaf + j
+			}
+		}
+		if kpos < 0 || kpos >= len(terms) {
+			continue
+		}
+		cur := terms[kpos]
+		for depth := 0; depth < 3; depth++ {
+			def := cur
+			if d, ok := e.defs[cur]; ok {
+				def = d
+			}
+			n := parseSx(def)
+			if !n.isApp("store") || len(n.kids) != 4 {
+				break
+			}
+			prev, r, inner := n.kids[1].String(), n.kids[2].String(), n.kids[3]
+			if !inner.isApp("store") || len(inner.kids) != 4 || !inner.kids[1].isApp("select") || inner.kids[1].kids[1].String() != prev {
+				break
+			}
+			x := inner.kids[2].String()
+			nTerm := terms[leafStart[rd.nIdx]]
+			for _, N := range []string{nTerm, app("bvsub", nTerm, c64(1))} {
+				var conds []string
+				for _, si := range fr.slices {
+					ref, off := terms[leafStart[si]], terms[leafStart[si]+1]
+					conds = append(conds, or(not(eq(r, ref)), app("bvslt", x, off), app("bvsge", x, bvadd(off, N))))
+				}
+				a := append([]string{}, terms...)
+				b := append([]string{}, terms...)
+				a[leafStart[rd.nIdx]], b[leafStart[rd.nIdx]] = N, N
+				a[kpos], b[kpos] = cur, prev
+				e.assume(imp(and(conds...), eq(app(rd.name, a...), app(rd.name, b...))))
+			}
+			cur = prev
+		}
+	}
 }
 
 func leafOfKeySort(s Sort) Sort {
@@ -277,7 +343,135 @@ func (e *Enc) compileRec(sf *SpecFn, from *Scope, retT types.Type) *recDef {
 		return nil
 	}
 	e.decl = append(e.decl, fmt.Sprintf("(define-fun-rec %s (%s) %s %s)", rd.name, strings.Join(binders, " "), layout(retT)[0].Sort, body))
+	e.recFrameAxioms(sf, rd, pkg, binders)
 	return rd
+}
+
+// recFrameAxioms: for a recursive specification function of the shape  f(.., s.., n, ..) = ite(n <= 0, e0, G(f(.., s.., n-1, ..), s[n-1]..))
+// (every slice parameter indexed only at n-1, recursion on n-1 with the same slices) a store to the element memory outside
+// s[0..n-1] of every slice parameter of that element type does not change f. Proved by induction on n on paper (the body at
+// level n reads s[n-1] only); emitted as a quantifier-alternation-free axiom per element-memory key so that loops which write
+// element i of a table while an invariant speaks about f(table, i) can be verified.
+func (e *Enc) recFrameAxioms(sf *SpecFn, rd *recDef, pkg *types.Package, binders []string) {
+	if sf.Body == nil || sf.Body.Kind != 'e' || sf.Body.Expr == nil {
+		return
+	}
+	nIdx := -1
+	type sl struct {
+		idx  int
+		name string
+		elem types.Type
+	}
+	var slices []sl
+	for i, p := range sf.Params {
+		t := e.ctx.parseType(pkg, p.Type)
+		if p.Name == "n" && t != nil && isInt(t) {
+			nIdx = i
+		}
+		if t != nil {
+			if st, ok := t.Underlying().(*types.Slice); ok {
+				slices = append(slices, sl{i, p.Name, st.Elem()})
+			}
+		}
+	}
+	if nIdx < 0 || len(slices) == 0 {
+		return
+	}
+	isSliceParam := map[string]bool{}
+	for _, s := range slices {
+		isSliceParam[s.name] = true
+	}
+	ok := true
+	// top level: ite(n <= 0, ., .)
+	top, isCall := sf.Body.Expr.(*ast.CallExpr)
+	if !isCall || types.ExprString(top.Fun) != "ite" || len(top.Args) != 3 || strings.ReplaceAll(types.ExprString(top.Args[0]), " ", "") != "n<=0" {
+		return
+	}
+	ast.Inspect(sf.Body.Expr, func(nd ast.Node) bool {
+		switch x := nd.(type) {
+		case *ast.IndexExpr:
+			id, isId := x.X.(*ast.Ident)
+			if !isId || !isSliceParam[id.Name] || strings.ReplaceAll(types.ExprString(x.Index), " ", "") != "n-1" {
+				ok = false
+			}
+		case *ast.SliceExpr:
+			ok = false
+		case *ast.CallExpr:
+			if id, isId := x.Fun.(*ast.Ident); isId && id.Name == sf.Name {
+				if len(x.Args) != len(sf.Params) {
+					ok = false
+					return true
+				}
+				for i, a := range x.Args {
+					txt := strings.ReplaceAll(types.ExprString(a), " ", "")
+					if i == nIdx {
+						if txt != "n-1" {
+							ok = false
+						}
+					} else if isSliceParam[sf.Params[i].Name] && txt != sf.Params[i].Name {
+						ok = false
+					}
+				}
+			} else if isId && (id.Name == "len" || id.Name == "cap") {
+				// len(s) of a slice parameter is a value, fine
+			}
+		case *ast.Ident:
+			// a slice parameter used other than as s[n-1], len(s) or recursion argument (e.g. passed to another function) would
+			// be caught here only roughly; other spec functions taking the slice are rejected
+		}
+		return true
+	})
+	if !ok {
+		return
+	}
+	for _, k := range rd.keys {
+		if !strings.HasPrefix(k, "M|") {
+			continue
+		}
+		var conds []string
+		for _, s := range slices {
+			pre := "M|" + typeKey(s.elem)
+			if k != pre && !strings.HasPrefix(k, pre+".") {
+				continue
+			}
+			ref, off := fmt.Sprintf("rp!%d!0", s.idx), fmt.Sprintf("rp!%d!1", s.idx)
+			nn := fmt.Sprintf("rp!%d!0", nIdx)
+			conds = append(conds, or(not(eq("fr!r", ref)), app("bvslt", "fr!x", off), app("bvsge", "fr!x", bvadd(off, nn))))
+		}
+		if len(conds) == 0 {
+			continue
+		}
+		srt := e.keySort[k]
+		if srt.K != 'a' || srt.Elem == nil || srt.Elem.K != 'a' || srt.Elem.Elem == nil {
+			continue
+		}
+		hp := "hp!" + symSafe(k)
+		stored := fmt.Sprintf("(store %s fr!r (store (select %s fr!r) fr!x fr!v))", hp, hp)
+		var argsA, argsB []string
+		for _, b := range binders {
+			name := strings.Fields(strings.TrimPrefix(b, "("))[0]
+			argsB = append(argsB, name)
+			if name == hp {
+				argsA = append(argsA, stored)
+			} else {
+				argsA = append(argsA, name)
+			}
+		}
+		lhs := app(rd.name, argsA...)
+		rhs := app(rd.name, argsB...)
+		e.decl = append(e.decl, fmt.Sprintf("(assert (forall (%s (fr!r (_ BitVec 64)) (fr!x (_ BitVec 64)) (fr!v %s)) (! (=> %s (= %s %s)) :pattern (%s))))",
+			strings.Join(binders, " "), *srt.Elem.Elem, and(conds...), lhs, rhs, lhs))
+		var idxs []int
+		for _, sl := range slices {
+			pre := "M|" + typeKey(sl.elem)
+			if k == pre || strings.HasPrefix(k, pre+".") {
+				idxs = append(idxs, sl.idx)
+			}
+		}
+		rd.frames = append(rd.frames, recFrame{key: k, slices: idxs})
+		rd.nIdx = nIdx
+		e.note("frame axiom for recursive specification function %s over %s (by induction on n, not machine-checked)", sf.Name, k)
+	}
 }
 
 // ---------- static side conditions of absmethod ----------
